@@ -91,8 +91,8 @@ def case_term(spec, obs):
     berr, werr = last_step_error(obs)
     world = "{| wd_globs := [%s]; wd_files := [%s]; wd_build_err := %s; wd_write_err := %s |}" % (
         "; ".join(globs), "; ".join(files), opt(berr), opt(werr))
-    return "{| c_B := %s; c_flags := %s; c_world := %s; c_outfile := %s |}" % (
-        lit(spec.get("version", "")), flags_term(spec.get("flags", {})), world, lit(spec["output"]))
+    return "{| c_B := %s; c_flags := %s; c_world := %s; c_outfile := %s; c_build_info := %s |}" % (
+        lit(spec.get("version", "")), flags_term(spec.get("flags", {})), world, lit(spec["output"]), lit(spec.get("build_info", "")))
 
 
 def _eval(env, specs, obss, fn, chunk, ints=False):
@@ -348,3 +348,20 @@ def compare(spec, obs, mlines):
                     diffs.append("front line %d: model=%r real=%r" % (i, x, y))
                     break
     return diffs
+
+
+def render_texts(env, specs, obss):
+    """pre-format text of the generated file according to the model, one str per case ('' when nothing is written)"""
+    lines, err = _eval(env, specs, obss, "flat_map render_text", 60)
+    if lines is None:
+        return None, err
+    res, cur = [], []
+    for line in lines:
+        if line == "=====":
+            res.append(b"\n".join(cur).decode("utf-8", "replace") + ("\n" if cur else ""))
+            cur = []
+        else:
+            cur.append(coqrun.unesc(line))
+    if len(res) != len(specs):
+        return None, "model produced %d texts for %d cases" % (len(res), len(specs))
+    return res, ""
